@@ -50,7 +50,7 @@ theorem navInv_of_renderInv (h : RenderInv S R)
   execute := executePassage_lift h henter c
   mark := by intro cid l; unfold markEntered; cases c.variant <;> exact h.refl _
   out := fun l o => h.refl _
-  cur := fun l x => h.refl _
+  cur := fun l x j => h.refl _
   scope := fun l l' sc hq => hq
 
 end Bardic
